@@ -1,6 +1,7 @@
 """Synthetic PeleLMeX checkpoints: abstract contents, independent writer of the
 on-disk format (Header, Level_k/{state,gradp,I_R,divU,p}_H and _D_xxxxx)."""
 import os
+import random
 import numpy as np
 from harness import gen
 
@@ -76,6 +77,13 @@ def gen_checkpoint(rng, nlevels=None, big=False):
                 if sub == 'state':
                     # positive mass fractions
                     a[..., 4:4 + ns] = np.abs(a[..., 4:4 + ns]) / 100.0 + 0.01
+                    # "quiet" boxes: the mass fractions of every cell already sum to one up to a few 1e-6 (not exactly)
+                    rq = random.Random(repr(rng.getstate()[1][:6]) + str(len(arrs)))
+                    if rq.random() < 0.3:
+                        nq = np.random.default_rng(rq.getrandbits(32))
+                        a[..., 4:4 + ns] /= np.sum(a[..., 4:4 + ns], axis=-1, keepdims=True)
+                        a[..., 4:4 + ns] *= 1.0 + nq.uniform(-6e-6, 6e-6, a.shape[:-1] + (1,))
+                        c.quiet = getattr(c, 'quiet', 0) + 1
                 arrs.append(np.asfortranarray(a))
             lev['data'][sub] = arrs
             files, lk = gen.gen_layout(rng, len(boxes))
@@ -85,7 +93,7 @@ def gen_checkpoint(rng, nlevels=None, big=False):
         c.levels.append(lev)
     c.meta = dict(nlevels=nlevels, bf=bf, nspecies=ns, nghost=c.nghost, geo=geo_stream + '/' + geo_kind,
                   int_line=c.int_line, nboxes=[len(l['boxes']) for l in c.levels], layouts_state=layouts['state'],
-                  layouts_gradp=layouts['gradp'], n0=c.n0, case='big' if big else 'generated')
+                  layouts_gradp=layouts['gradp'], n0=c.n0, case='big' if big else 'generated', quiet_boxes=getattr(c, 'quiet', 0))
     return c
 
 
